@@ -137,7 +137,20 @@ def run(prop, tier, seed):
         if cls not in ("exit0", "exit1") or "panicked" in e:
             tool_fail.append((k, lv, cls, e))
         elif lib.startswith("src:") and text is not None and text != bytes.fromhex(lib[4:]).decode("utf-8"):
-            tool_diff.append((k, lv))
+            # not the same text: what counts is the behaviour of what the command wrote (a banner comment, a different layout
+            # are not violations) — compile it and run it on the case's input
+            exe = os.path.join(d, "tool%d_%d" % (k, lv))
+            ok, msg = C.rustc_program(text, exe, rlib)
+            got = C.run_exe(exe, cases[k][2].encode("utf-8"), timeout=3) if ok else ("rustc-rejects", msg.encode("utf-8", "replace")[-300:], b"")
+            if ok:
+                try:
+                    os.remove(exe)
+                except OSError:
+                    pass
+            if ok and behaviour_ok(specs[k], got, lv):
+                hist["build-command-text-differs-same-behaviour"] += 1
+            else:
+                tool_diff.append((k, lv, got))
         elif lib.startswith("src:") and text is None and "[error]" in e and "cargo build" not in e:
             hist["build-command-diagnosed"] += 1
 
@@ -266,10 +279,11 @@ def run(prop, tier, seed):
                     "`hyeong build -O%d` on %r ends with %s before/without a diagnostic: %s" % (lv, cases[k][1][:200], cls, e[-300:]),
                     dict(program=cases[k][1], level=lv, status=cls, stderr=e[-2000:]))
     if tool_diff and not tool_fail:
-        k, lv = tool_diff[0]
-        V.violation("correspondence:build-command", "`hyeong build -O%d` writes a different main.rs for %r than optimize + build_source called directly" % (lv, cases[k][1][:200]),
-                    dict(correspondence="app/build.rs (the command) vs the library path optimize::optimize + compile::build_source used by the check and modelled by Compile.compile_prog",
-                         program=cases[k][1], level=lv, disagreements=len(tool_diff)), found_input=False)
+        k, lv, got = tool_diff[0]
+        V.violation("compiled:level%d:build-command-behaviour" % lv,
+                    "the program `hyeong build -O%d` writes for %r (different from what optimize + build_source give when called directly) behaves "
+                    "differently from the interpreter on stdin %r: %r, expected %r" % (lv, cases[k][1][:200], cases[k][2], got, specs[k]),
+                    dict(program=cases[k][1], stdin=cases[k][2], level=lv, observed=repr(got), expected=repr(specs[k]), disagreements=len(tool_diff)))
     if not pc["ok"]:
         V.violation("proof:" + prop, "proof obligations of %s do not check: %s" % (prop, "; ".join(pc["problems"])),
                     dict(theorem_file="coq/Props/%s.v" % prop, problems=pc["problems"]), found_input=False)
